@@ -13,9 +13,11 @@ def factory_closure(prog, qname, arg=("param", "n")):
     S = Sym(prog, inline=lambda g: (g.name.startswith("_") and not g.name.startswith("__")) or private_class(g))
     summ, _ = run_function(S, f)
     clo = summ.ret
-    if not isinstance(clo, (Closure, PartialV)):
+    from ..core import ObjV
+    callable_obj = isinstance(clo, ObjV) and prog.method(clo.module, clo.cls, "__call__") is not None       # an instance of a class with __call__
+    if not isinstance(clo, (Closure, PartialV)) and not callable_obj:
         raise Inconclusive("%s does not return a closure" % qname, f.node)
     n0 = len(S.facts)
     ctx = S.module_ctx(f.module)
-    res = S.apply(clo, [arg], {}, clo.node, {}, ctx)
+    res = S.apply(clo, [arg], {}, getattr(clo, "node", f.node), {}, ctx)
     return S, f, clo, T(res), S.facts[n0:]
